@@ -64,6 +64,8 @@ def detect(pid, var, checks):
     finally:
         sh("git -C /repo checkout -- .")
         sh("git -C /repo clean -fdq -e target")
+        # evidence written while a seeded change was applied must not stay in the tree
+        sh("git -C /verif checkout -- evidence")
     record({"phase": "detect", "id": pid, "variant": var, "checks": res,
             "caught_by": [c for c, r in res.items() if r["exit"] == 1 and r["violation"]]})
     return 0
